@@ -140,6 +140,21 @@ def eval_resume(ctx, N, screening=False):
             rp = dict(N1=N1, N2=N2, where=[list(b) for b in bad[:6]])
             ctx.fail("resume-differs", f"resumed run (split {N1}+{N2}) differs from the uninterrupted run at {bad[:4]}", rp)
             first = first or dict(key="resume-differs", what="resumed run differs", **rp)
+        # continuing is an observation of the saved state too: it leaves the seed solution as it was, so a second
+        # continuation from the same (in-memory) seed, recorded differently, gives the same frames again
+        if N1 in (1, N // 2):
+            snap = {nm: np.array(getattr(sol1.tdgl_data, nm), copy=True) for nm in runs.FIELDS}
+            opts3 = runs.options(save_every=2, solve_time=dt * (N2 - 0.5), output_file=os.path.join(str(ctx.work), f"part3_{N1}.h5"), progress_interval=10**9, **o)
+            sol3 = tdgl.solve(dev, opts3, seed_solution=sol1, **kw)
+            f3 = {fr["step"]: fr for fr in runs.parse_h5(sol3.path)[0]}
+            shared3, bad3 = cmp_frames(ctx, "resume-again", full, f3, shift=N1)
+            changed = [nm for nm in runs.FIELDS if not np.array_equal(snap[nm], np.asarray(getattr(sol1.tdgl_data, nm)))]
+            ctx.case(("resume-again", screening, N1, N2), nontrivial=shared3 >= 1)
+            ctx.count("second_continuations_from_the_same_seed")
+            if bad3 or changed:
+                rp = dict(N1=N1, N2=N2, seed_fields_changed=changed, where=[list(b) for b in bad3[:6]])
+                ctx.fail("resume-again-differs", f"a second continuation from the same seed solution (split {N1}+{N2}) differs from the uninterrupted run at {bad3[:4]}; seed fields changed by the first continuation: {changed}", rp)
+                first = first or dict(key="resume-again-differs", what="second continuation differs", **rp)
     return first
 
 
